@@ -1,30 +1,996 @@
+// c10: correspondence cases for property C10 (regular expressions).
 package main
 
 import (
-	"bufio"
 	"fmt"
-	"os"
+	"math"
+	"math/rand"
+	"strings"
 
 	"github.com/robertkrimen/otto"
+	"github.com/robertkrimen/otto/parser"
+	. "ottoh/lib"
 )
 
 func main() {
-	vm := otto.New()
-	sc := bufio.NewScanner(os.Stdin)
-	for sc.Scan() {
-		src := sc.Text()
-		func() {
-			defer func() {
-				if r := recover(); r != nil {
-					fmt.Printf("%s  =>  PANIC %v\n", src, r)
-				}
-			}()
-			v, err := vm.Run(src)
-			if err != nil {
-				fmt.Printf("%s  =>  ERR %v\n", src, err)
-				return
+	env := FromFlags("c10")
+	runC10(env)
+	env.Finish()
+}
+
+// ---------- pattern trees (mirror of coq/C10/SpecSyntax.v) ----------
+
+type chs struct {
+	kind string // lit idesc ctl hex uni cx
+	c    rune   // lit/idesc: the character; ctl/cx: the letter
+	h    string // hex digits
+}
+
+func (c chs) js() string {
+	switch c.kind {
+	case "lit":
+		return string(c.c)
+	case "idesc", "ctl":
+		return "\\" + string(c.c)
+	case "hex":
+		return "\\x" + c.h
+	case "uni":
+		return "\\u" + c.h
+	default:
+		return "\\c" + string(c.c)
+	}
+}
+
+func (c chs) coq() string {
+	switch c.kind {
+	case "lit":
+		return fmt.Sprintf("(CLit %d)", c.c)
+	case "idesc":
+		return fmt.Sprintf("(CIdEsc %d)", c.c)
+	case "ctl":
+		return fmt.Sprintf("(CCtl %d)", c.c)
+	case "hex":
+		return fmt.Sprintf("(CHex %d %d)", c.h[0], c.h[1])
+	case "uni":
+		return fmt.Sprintf("(CUni %d %d %d %d)", c.h[0], c.h[1], c.h[2], c.h[3])
+	default:
+		return fmt.Sprintf("(CCx %d)", c.c)
+	}
+}
+
+func hexv(s string) rune {
+	var v rune
+	for _, d := range s {
+		switch {
+		case d >= '0' && d <= '9':
+			v = v*16 + d - '0'
+		case d >= 'a' && d <= 'f':
+			v = v*16 + d - 'a' + 10
+		default:
+			v = v*16 + d - 'A' + 10
+		}
+	}
+	return v
+}
+
+func (c chs) val() rune {
+	switch c.kind {
+	case "lit", "idesc":
+		return c.c
+	case "ctl":
+		return map[rune]rune{'f': 12, 'n': 10, 'r': 13, 't': 9, 'v': 11}[c.c]
+	case "hex", "uni":
+		return hexv(c.h)
+	default:
+		return c.c % 32
+	}
+}
+
+type item struct {
+	kind   string // one range esc bs
+	lo, hi chs
+	k      rune
+}
+
+func (i item) js() string {
+	switch i.kind {
+	case "one":
+		return i.lo.js()
+	case "range":
+		return i.lo.js() + "-" + i.hi.js()
+	case "esc":
+		return "\\" + string(i.k)
+	default:
+		return "\\b"
+	}
+}
+
+func (i item) coq() string {
+	switch i.kind {
+	case "one":
+		return "(CI1 " + i.lo.coq() + ")"
+	case "range":
+		return "(CIRange " + i.lo.coq() + " " + i.hi.coq() + ")"
+	case "esc":
+		return fmt.Sprintf("(CIEsc %d)", i.k)
+	default:
+		return "CIBs"
+	}
+}
+
+type quant struct {
+	kind string // star plus opt n ninf nm
+	n, m int
+}
+
+func (q quant) js() string {
+	switch q.kind {
+	case "star":
+		return "*"
+	case "plus":
+		return "+"
+	case "opt":
+		return "?"
+	case "n":
+		return fmt.Sprintf("{%d}", q.n)
+	case "ninf":
+		return fmt.Sprintf("{%d,}", q.n)
+	default:
+		return fmt.Sprintf("{%d,%d}", q.n, q.m)
+	}
+}
+
+func (q quant) coq() string {
+	switch q.kind {
+	case "star":
+		return "QStar"
+	case "plus":
+		return "QPlus"
+	case "opt":
+		return "QOpt"
+	case "n":
+		return fmt.Sprintf("(QN %d%%nat)", q.n)
+	case "ninf":
+		return fmt.Sprintf("(QNInf %d%%nat)", q.n)
+	default:
+		return fmt.Sprintf("(QNM %d%%nat %d%%nat)", q.n, q.m)
+	}
+}
+
+func (q quant) min() int {
+	switch q.kind {
+	case "star", "opt":
+		return 0
+	case "plus":
+		return 1
+	}
+	return q.n
+}
+
+type node struct {
+	op     string // empty ch dot esc class bol eol wb nwb grp ncg look bref seq alt quant
+	ch     chs
+	k      rune
+	neg    bool
+	items  []item
+	a, b   *node
+	q      quant
+	greedy bool
+	n      int
+}
+
+func (r *node) js() string {
+	switch r.op {
+	case "empty":
+		return ""
+	case "ch":
+		return r.ch.js()
+	case "dot":
+		return "."
+	case "esc":
+		return "\\" + string(r.k)
+	case "class":
+		s := "["
+		if r.neg {
+			s += "^"
+		}
+		for _, i := range r.items {
+			s += i.js()
+		}
+		return s + "]"
+	case "bol":
+		return "^"
+	case "eol":
+		return "$"
+	case "wb":
+		return "\\b"
+	case "nwb":
+		return "\\B"
+	case "grp":
+		return "(" + r.a.js() + ")"
+	case "ncg":
+		return "(?:" + r.a.js() + ")"
+	case "look":
+		if r.neg {
+			return "(?!" + r.a.js() + ")"
+		}
+		return "(?=" + r.a.js() + ")"
+	case "bref":
+		return fmt.Sprintf("\\%d", r.n)
+	case "seq":
+		return r.a.js() + r.b.js()
+	case "alt":
+		return r.a.js() + "|" + r.b.js()
+	default:
+		s := r.a.js() + r.q.js()
+		if !r.greedy {
+			s += "?"
+		}
+		return s
+	}
+}
+
+func (r *node) coq() string {
+	switch r.op {
+	case "empty":
+		return "REmpty"
+	case "ch":
+		return "(RCh " + r.ch.coq() + ")"
+	case "dot":
+		return "RDot"
+	case "esc":
+		return fmt.Sprintf("(REscCls %d)", r.k)
+	case "class":
+		its := make([]string, len(r.items))
+		for i, it := range r.items {
+			its[i] = it.coq()
+		}
+		return fmt.Sprintf("(RClass %s %s)", Cbool(r.neg), Clist(its))
+	case "bol":
+		return "RBol"
+	case "eol":
+		return "REol"
+	case "wb":
+		return "RWordB"
+	case "nwb":
+		return "RNWordB"
+	case "grp":
+		return "(RGroup " + r.a.coq() + ")"
+	case "ncg":
+		return "(RNcGroup " + r.a.coq() + ")"
+	case "look":
+		return fmt.Sprintf("(RLook %s %s)", Cbool(r.neg), r.a.coq())
+	case "bref":
+		return fmt.Sprintf("(RBackref %d)", r.n)
+	case "seq":
+		return "(RSeq " + r.a.coq() + " " + r.b.coq() + ")"
+	case "alt":
+		return "(RAlt " + r.a.coq() + " " + r.b.coq() + ")"
+	default:
+		return fmt.Sprintf("(RQuant %s %s %s)", r.a.coq(), r.q.coq(), Cbool(r.greedy))
+	}
+}
+
+func (r *node) ngroups() int {
+	if r == nil {
+		return 0
+	}
+	n := r.a.ngroups() + r.b.ngroups()
+	if r.op == "grp" {
+		n++
+	}
+	return n
+}
+
+// ---------- generators ----------
+
+type gen struct {
+	env   *Env
+	r     *rand.Rand
+	unsup bool // look-ahead / back-references allowed
+	used  bool // an unsupported construct was generated
+	size  int  // budget of atoms
+}
+
+func (g *gen) weighted(ws []int) int {
+	t := 0
+	for _, w := range ws {
+		t += w
+	}
+	x := g.r.Intn(t)
+	for i, w := range ws {
+		if x < w {
+			return i
+		}
+		x -= w
+	}
+	return 0
+}
+
+var patLits = []rune{'a', 'b', 'c', 'A', '1', 'é', '-', ' ', 'É', '€', '_'}
+var patLitW = []int{30, 25, 5, 5, 5, 8, 3, 1, 1, 1, 1}
+
+func (g *gen) litRune() rune { return patLits[g.weighted(patLitW)] }
+
+func (g *gen) chspec(inClass bool) chs {
+	switch g.weighted([]int{60, 10, 6, 8, 8, 5}) {
+	case 0:
+		c := g.litRune()
+		if inClass && c == '-' {
+			return chs{kind: "idesc", c: '-'}
+		}
+		if inClass && g.r.Intn(12) == 0 {
+			c = '/' // raw slash inside a class: legal in a literal too
+		}
+		return chs{kind: "lit", c: c}
+	case 1:
+		return chs{kind: "idesc", c: Pick(g.r, []rune{'.', '*', '+', '?', '(', ')', '[', ']', '{', '}', '|', '^', '$', '\\', '/', '-'})}
+	case 2:
+		return chs{kind: "ctl", c: Pick(g.r, []rune{'n', 'n', 'n', 't', 'r', 'f', 'v'})}
+	case 3:
+		return chs{kind: "hex", h: Pick(g.r, []string{"61", "62", "41", "0a", "0A", "e9", "E9", "2d", "31", "20", "c9"})}
+	case 4:
+		return chs{kind: "uni", h: Pick(g.r, []string{"0061", "0062", "00e9", "00E9", "000a", "20ac", "20AC", "0041", "002D", "00c9"})}
+	default:
+		return chs{kind: "cx", c: Pick(g.r, []rune{'J', 'j', 'M', 'm', 'A', 'a', 'Z', 'z', 'I', 'P', 'p', 'K'})}
+	}
+}
+
+func (g *gen) classItem() item {
+	switch g.weighted([]int{50, 25, 15, 3}) {
+	case 0:
+		return item{kind: "one", lo: g.chspec(true)}
+	case 1:
+		for {
+			lo, hi := g.chspec(true), g.chspec(true)
+			if lo.val() <= hi.val() {
+				return item{kind: "range", lo: lo, hi: hi}
 			}
-			fmt.Printf("%s  =>  %s\n", src, v.String())
+		}
+	case 2:
+		return item{kind: "esc", k: Pick(g.r, []rune{'d', 'D', 'w', 'W', 's', 'S'})}
+	default:
+		return item{kind: "bs"}
+	}
+}
+
+func (g *gen) atom(depth int) *node {
+	g.size--
+	ws := []int{50, 8, 10, 12, 14, 8, 0}
+	if depth <= 0 || g.size <= 0 {
+		ws[4], ws[5] = 0, 0
+	}
+	if g.unsup {
+		ws[6] = 6
+	}
+	switch g.weighted(ws) {
+	case 0:
+		return &node{op: "ch", ch: g.chspec(false)}
+	case 1:
+		return &node{op: "dot"}
+	case 2:
+		return &node{op: "esc", k: Pick(g.r, []rune{'d', 'D', 'w', 'W', 's', 'S', 'w', 'd'})}
+	case 3:
+		n := g.r.Intn(3) + 1
+		its := make([]item, n)
+		for i := range its {
+			its[i] = g.classItem()
+		}
+		return &node{op: "class", neg: g.r.Intn(4) == 0, items: its}
+	case 4:
+		return &node{op: "grp", a: g.alt(depth - 1)}
+	case 5:
+		return &node{op: "ncg", a: g.alt(depth - 1)}
+	default:
+		g.used = true
+		return &node{op: "bref", n: g.r.Intn(9) + 1}
+	}
+}
+
+func (g *gen) quant() quant {
+	switch g.weighted([]int{30, 25, 20, 8, 8, 10}) {
+	case 0:
+		return quant{kind: "star"}
+	case 1:
+		return quant{kind: "plus"}
+	case 2:
+		return quant{kind: "opt"}
+	case 3:
+		return quant{kind: "n", n: g.r.Intn(4)}
+	case 4:
+		return quant{kind: "ninf", n: g.r.Intn(3)}
+	default:
+		n := g.r.Intn(3)
+		return quant{kind: "nm", n: n, m: n + g.r.Intn(3)}
+	}
+}
+
+func (g *gen) term(depth int) *node {
+	x := g.r.Intn(100)
+	switch {
+	case x < 4:
+		return &node{op: "bol"}
+	case x < 8:
+		return &node{op: "eol"}
+	case x < 13:
+		return &node{op: "wb"}
+	case x < 15:
+		return &node{op: "nwb"}
+	case x < 18 && g.unsup && depth > 0:
+		g.used = true
+		return &node{op: "look", neg: g.r.Intn(2) == 0, a: g.alt(depth - 1)}
+	}
+	a := g.atom(depth)
+	if g.r.Intn(100) < 40 {
+		return &node{op: "quant", a: a, q: g.quant(), greedy: g.r.Intn(4) != 0}
+	}
+	return a
+}
+
+func startsDigit(s string) bool { return s != "" && s[0] >= '0' && s[0] <= '9' }
+
+func (g *gen) seq(depth int) *node {
+	n := g.weighted([]int{6, 30, 35, 20, 9})
+	if g.size <= 0 && n > 1 {
+		n = 1
+	}
+	if n == 0 {
+		return &node{op: "empty"}
+	}
+	terms := make([]*node, n)
+	for i := range terms {
+		terms[i] = g.term(depth)
+		// a digit directly after \N would extend the back-reference
+		if i > 0 && terms[i-1].op == "bref" && startsDigit(terms[i].js()) {
+			terms[i] = &node{op: "ch", ch: chs{kind: "lit", c: 'a'}}
+		}
+	}
+	r := terms[0]
+	for _, t := range terms[1:] {
+		r = &node{op: "seq", a: r, b: t}
+	}
+	return r
+}
+
+func (g *gen) alt(depth int) *node {
+	n := g.weighted([]int{70, 24, 6}) + 1
+	alts := make([]*node, n)
+	for i := range alts {
+		alts[i] = g.seq(depth)
+	}
+	r := alts[n-1]
+	for i := n - 2; i >= 0; i-- {
+		r = &node{op: "alt", a: alts[i], b: r}
+	}
+	return r
+}
+
+// nine to eleven small capturing groups in a row (RegExp.$9, $10, $nn)
+func (g *gen) manyGroups() *node {
+	n := 8 + g.r.Intn(4)
+	var ts []*node
+	for i := 0; i < n; i++ {
+		var body *node
+		switch g.r.Intn(6) {
+		case 0:
+			body = &node{op: "alt", a: lit('a'), b: lit('b')}
+		case 1:
+			body = qn(lit(Pick(g.r, []rune{'a', 'b'})), "star", true)
+		case 2:
+			body = &node{op: "dot"}
+		default:
+			body = lit(Pick(g.r, []rune{'a', 'b', 'a', 'b', '1'}))
+		}
+		t := grp(body)
+		if g.r.Intn(5) == 0 {
+			t = qn(t, "opt", true)
+		}
+		ts = append(ts, t)
+	}
+	return seqOf(ts...)
+}
+
+func (g *gen) pattern(unsup bool) *node {
+	for {
+		g.unsup, g.used, g.size = unsup, false, 3+g.r.Intn(6)
+		r := g.alt(2)
+		if p := r.js(); len(p) > 0 && len(p) <= 40 {
+			return r
+		}
+	}
+}
+
+// a string the tree is likely to match
+func (g *gen) sample(r *node, out []rune) []rune {
+	if len(out) > 10 {
+		return out
+	}
+	switch r.op {
+	case "ch":
+		return append(out, r.ch.val())
+	case "dot":
+		return append(out, g.subjRune())
+	case "esc":
+		return append(out, map[rune]rune{'d': '1', 'D': 'a', 'w': Pick(g.r, []rune{'a', 'b', '1', '_'}), 'W': '-', 's': Pick(g.r, []rune{' ', '\n', '\v', ' '}), 'S': 'b'}[r.k])
+	case "class":
+		if r.neg {
+			return append(out, g.subjRune())
+		}
+		it := r.items[g.r.Intn(len(r.items))]
+		switch it.kind {
+		case "one":
+			return append(out, it.lo.val())
+		case "range":
+			return append(out, it.lo.val()+rune(g.r.Intn(int(it.hi.val()-it.lo.val())+1)))
+		case "esc":
+			return append(out, map[rune]rune{'d': '1', 'D': 'a', 'w': 'a', 'W': '-', 's': ' ', 'S': 'b'}[it.k])
+		default:
+			return append(out, 8)
+		}
+	case "grp", "ncg":
+		return g.sample(r.a, out)
+	case "seq":
+		return g.sample(r.b, g.sample(r.a, out))
+	case "alt":
+		if g.r.Intn(2) == 0 {
+			return g.sample(r.a, out)
+		}
+		return g.sample(r.b, out)
+	case "quant":
+		n := r.q.min() + g.r.Intn(3)
+		if r.q.kind == "opt" && n > 1 {
+			n = 1
+		}
+		if r.q.kind == "n" {
+			n = r.q.n
+		}
+		if r.q.kind == "nm" && n > r.q.m {
+			n = r.q.m
+		}
+		for i := 0; i < n; i++ {
+			out = g.sample(r.a, out)
+		}
+		return out
+	}
+	return out
+}
+
+var subjRunes = []rune{'a', 'b', 'A', '1', '-', 'é', '\n', 'c', ' ', '\r', '\v', ' ', '€', 'B', 'É'}
+var subjW = []int{30, 25, 6, 6, 8, 10, 6, 3, 2, 1, 1, 1, 2, 1, 1}
+
+func (g *gen) subjRune() rune { return subjRunes[g.weighted(subjW)] }
+
+func (g *gen) subject(r *node, ic bool) []rune {
+	var s []rune
+	if g.r.Intn(100) < 55 {
+		for i := g.r.Intn(3); i > 0; i-- {
+			s = append(s, g.subjRune())
+		}
+		s = g.sample(r, s)
+		for i := g.r.Intn(3); i > 0; i-- {
+			s = append(s, g.subjRune())
+		}
+		if g.r.Intn(4) == 0 { // a second occurrence, for global histories
+			s = g.sample(r, s)
+		}
+	} else {
+		for i := g.r.Intn(8); i > 0; i-- {
+			s = append(s, g.subjRune())
+		}
+	}
+	if ic {
+		for i, c := range s {
+			if g.r.Intn(3) == 0 {
+				switch {
+				case c >= 'a' && c <= 'z':
+					s[i] = c - 32
+				case c >= 'A' && c <= 'Z':
+					s[i] = c + 32
+				case c == 'é':
+					s[i] = 'É'
+				case c == 'É':
+					s[i] = 'é'
+				}
+			}
+		}
+	}
+	if len(s) > 9 {
+		s = s[:9]
+	}
+	return s
+}
+
+// ---------- running a history on otto ----------
+
+const prelude = `var out=[], leg=[];
+function pa(a){ if(a===null||a===undefined){out.push(a);return;} out.push(a.length); for(var i=0;i<a.length;i++) out.push(a[i]); }
+function li(){ out.push(r.lastIndex); }
+`
+
+func cUnits(s []rune) string { return Cstr(string(s)) }
+func jsStr(s []rune) string  { return JSStr(Units(string(s))) }
+
+type opv struct {
+	js, coq string
+}
+
+func utf8len(s []rune) int { return len(string(s)) }
+
+func (g *gen) ops(r *node, global bool, s []rune) []opv {
+	n := g.weighted([]int{20, 25, 25, 15, 10, 5}) + 1
+	var ops []opv
+	ng := r.ngroups()
+	for k := 0; k < n; k++ {
+		subj := s
+		if g.r.Intn(5) == 0 {
+			subj = g.subject(r, false)
+		}
+		S := jsStr(subj)
+		C := cUnits(subj)
+		ws := []int{30, 18, 14, 8, 6, 9, 8, 7, 3}
+		if global {
+			ws[2] = 22
+		}
+		if ng >= 8 { // many groups: the $1..$9 statics, $nn, captures spliced into split results
+			ws = []int{10, 30, 6, 6, 2, 16, 22, 10, 1}
+		}
+		switch g.weighted(ws) {
+		case 0:
+			ops = append(ops, opv{fmt.Sprintf("var m=r.exec(%s); pa(m); if(m){out.push(m.index,m.input);} li();", S), "(OExec " + C + ")"})
+		case 1:
+			ops = append(ops, opv{fmt.Sprintf("out.push(r.test(%s)); li(); leg.push(RegExp.$1,RegExp.$2,RegExp.$3,RegExp.$4,RegExp.$5,RegExp.$6,RegExp.$7,RegExp.$8,RegExp.$9,RegExp.$_,RegExp.input);", S), "(OTest " + C + ")"})
+		case 2:
+			// boundaries of the subject in units and in bytes, -1, one past the end
+			L := len(s)
+			v := Pick(g.r, []int{0, 1, 1, 2, 2, 3, L - 1, L, L, L + 1, utf8len(s), utf8len(s) + 1, -1, g.r.Intn(L + 2)})
+			ops = append(ops, opv{fmt.Sprintf("r.lastIndex=%d; li();", v), "(OSetLI " + Cz(int64(v)) + ")"})
+		case 3:
+			js := fmt.Sprintf("var m=%s.match(r); pa(m);", S)
+			if !global {
+				js += " if(m){out.push(m.index,m.input);}"
+			}
+			ops = append(ops, opv{js + " li();", "(OMatch " + C + ")"})
+		case 4:
+			ops = append(ops, opv{fmt.Sprintf("out.push(%s.search(r)); li();", S), "(OSearch " + C + ")"})
+		case 5:
+			lim, clim := "", "None"
+			if g.r.Intn(2) == 0 {
+				v := Pick(g.r, []int64{0, 1, 1, 2, 2, 3, 4, 5, -1, 4294967297})
+				lim = fmt.Sprintf(", %d", v)
+				clim = fmt.Sprintf("(Some %d)", uint32(v))
+			}
+			ops = append(ops, opv{fmt.Sprintf("pa(%s.split(r%s)); li();", S, lim), fmt.Sprintf("(OSplit %s %s)", C, clim)})
+		case 6:
+			var rp []rune
+			for i := g.r.Intn(4) + 1; i > 0; i-- {
+				pieces := []string{"$&", "$`", "$'", "$$", "x", "-", "$", "$a", "$0", "$00", "é", "$$1"}
+				for c := 1; c <= ng && c <= 9; c++ {
+					pieces = append(pieces, fmt.Sprintf("$%d", c), fmt.Sprintf("$%d", c), fmt.Sprintf("$0%d", c))
+				}
+				if ng >= 10 {
+					pieces = append(pieces, "$10", "$10", fmt.Sprintf("$%d", ng), "$09", "$9")
+				}
+				if g.r.Intn(8) == 0 { // beyond the captures: implementation-defined, only "no exception" is judged
+					pieces = append(pieces, fmt.Sprintf("$%d", ng+1), fmt.Sprintf("$%d", ng+1), fmt.Sprintf("$0%d", (ng+1)%10), "$99")
+				}
+				rp = append(rp, []rune(Pick(g.r, pieces))...)
+				rp = append(rp, []rune(Pick(g.r, []string{"", "", "|", "a"}))...)
+			}
+			ops = append(ops, opv{fmt.Sprintf("out.push(%s.replace(r,%s)); li();", S, jsStr(rp)), fmt.Sprintf("(OReplS %s %s)", C, cUnits(rp))})
+		case 8:
+			ops = append(ops, opv{"out.push(r.source, r.global, r.ignoreCase, r.multiline, String(r)); li();", "OProps"})
+		default:
+			ops = append(ops, opv{fmt.Sprintf("var lg=[]; out.push(%s.replace(r,function(){lg.push(arguments.length); for(var i=0;i<arguments.length;i++) lg.push(arguments[i]); return '<'+arguments.length+'>';})); for(var i=0;i<lg.length;i++) out.push(lg[i]); li();", S), "(OReplF " + C + ")"})
+		}
+	}
+	return ops
+}
+
+func ovOf(v otto.Value) string {
+	switch {
+	case v.IsUndefined():
+		return "OU"
+	case v.IsNull():
+		return "ON"
+	case v.IsBoolean():
+		b, _ := v.ToBoolean()
+		return "(OB " + Cbool(b) + ")"
+	case v.IsNumber():
+		f, _ := v.ToFloat()
+		if f == math.Trunc(f) && math.Abs(f) < 1e15 {
+			return "(OZ " + Cz(int64(f)) + ")"
+		}
+		return "(OS " + Cstr(fmt.Sprintf("NUM:%v", f)) + ")"
+	case v.IsString():
+		return "(OS " + Cstr(v.String()) + ")"
+	}
+	return "(OS " + Cstr("OBJ:"+v.String()) + ")"
+}
+
+func readArray(vm *otto.Otto, name string) ([]string, string) {
+	v, err := vm.Get(name)
+	if err != nil || !v.IsObject() {
+		return []string{"(OS " + Cstr("NOARRAY") + ")"}, "?"
+	}
+	o := v.Object()
+	lv, _ := o.Get("length")
+	n, _ := lv.ToInteger()
+	items := make([]string, 0, n)
+	var txt []string
+	for i := int64(0); i < n; i++ {
+		e, _ := o.Get(fmt.Sprint(i))
+		items = append(items, ovOf(e))
+		if e.IsString() {
+			txt = append(txt, fmt.Sprintf("%q", e.String()))
+		} else {
+			txt = append(txt, e.String())
+		}
+	}
+	return items, strings.Join(txt, ",")
+}
+
+type seqCase struct {
+	r       *node
+	g, i, m bool
+	literal bool
+	mode    int // 0 plain; 1 copy constructor / call without new; 2 RegExp(regexp) identity
+	ops     []opv
+}
+
+func flagStr(g, i, m bool) string {
+	s := ""
+	if g {
+		s += "g"
+	}
+	if i {
+		s += "i"
+	}
+	if m {
+		s += "m"
+	}
+	return s
+}
+
+func (g *gen) runSeq(c seqCase, bucket string) {
+	pat := c.r.js()
+	fl := flagStr(c.g, c.i, c.m)
+	var src strings.Builder
+	src.WriteString(prelude)
+	switch {
+	case c.literal && c.mode == 1:
+		fmt.Fprintf(&src, "var r0 = /%s/%s; var r = new RegExp(r0);\n", pat, fl)
+	case c.literal:
+		fmt.Fprintf(&src, "var r = /%s/%s;\n", pat, fl)
+	case c.mode == 1:
+		fmt.Fprintf(&src, "var r = RegExp(%s, %q);\n", JSStr(Units(pat)), fl)
+	case c.mode == 2:
+		fmt.Fprintf(&src, "var r = RegExp(new RegExp(%s, %q));\n", JSStr(Units(pat)), fl)
+	default:
+		fmt.Fprintf(&src, "var r = new RegExp(%s, %q);\n", JSStr(Units(pat)), fl)
+	}
+	src.WriteString("try {\n")
+	coqOps := make([]string, len(c.ops))
+	for k, o := range c.ops {
+		src.WriteString(o.js + "\n")
+		coqOps[k] = o.coq
+	}
+	src.WriteString("} catch (e) { out.push('EXC:' + e.name); }\n")
+	vm := otto.New()
+	o := RunJS(vm, src.String())
+	var obs, leg []string
+	var txt string
+	if o.Panic != nil || o.Err != nil {
+		obs = []string{"(OS " + Cstr(fmt.Sprintf("FAIL:%d", ErrClass(o))) + ")"}
+		txt = fmt.Sprintf("!%v %v", o.Panic, o.Err)
+	} else {
+		var lt string
+		obs, txt = readArray(vm, "out")
+		leg, lt = readArray(vm, "leg")
+		if len(leg) > 0 {
+			txt += " ; legacy " + lt
+		}
+	}
+	term := fmt.Sprintf("CSeq %s %s %s %s %s %s %s %s", c.r.coq(), Cbool(c.g), Cbool(c.i), Cbool(c.m), Cstr(pat), Clist(coqOps), Clist(obs), Clist(leg))
+	nontriv := len(c.ops) > 1 || strings.ContainsAny(pat, "*+?{(|[\\")
+	g.env.Add(term, fmt.Sprintf("seq %s -> out=[%s]", strings.ReplaceAll(src.String()[len(prelude):], "\n", " "), txt), bucket, nontriv)
+}
+
+// ---------- hand-written trees for the pinned witnesses ----------
+
+func lit(c rune) *node  { return &node{op: "ch", ch: chs{kind: "lit", c: c}} }
+func grp(a *node) *node { return &node{op: "grp", a: a} }
+func seqOf(ns ...*node) *node {
+	r := ns[0]
+	for _, n := range ns[1:] {
+		r = &node{op: "seq", a: r, b: n}
+	}
+	return r
+}
+func qn(a *node, kind string, greedy bool) *node {
+	return &node{op: "quant", a: a, q: quant{kind: kind}, greedy: greedy}
+}
+
+func opExec(s string) opv {
+	return opv{fmt.Sprintf("var m=r.exec(%s); pa(m); if(m){out.push(m.index,m.input);} li();", jsStr([]rune(s))), "(OExec " + Cstr(s) + ")"}
+}
+func opSetLI(v int) opv {
+	return opv{fmt.Sprintf("r.lastIndex=%d; li();", v), "(OSetLI " + Cz(int64(v)) + ")"}
+}
+func opTest(s string) opv {
+	return opv{fmt.Sprintf("out.push(r.test(%s)); li(); leg.push(RegExp.$1,RegExp.$2,RegExp.$3,RegExp.$4,RegExp.$5,RegExp.$6,RegExp.$7,RegExp.$8,RegExp.$9,RegExp.$_,RegExp.input);", jsStr([]rune(s))), "(OTest " + Cstr(s) + ")"}
+}
+func opMatchG(s string) opv {
+	return opv{fmt.Sprintf("var m=%s.match(r); pa(m); li();", jsStr([]rune(s))), "(OMatch " + Cstr(s) + ")"}
+}
+func opSearch(s string) opv {
+	return opv{fmt.Sprintf("out.push(%s.search(r)); li();", jsStr([]rune(s))), "(OSearch " + Cstr(s) + ")"}
+}
+func opSplit(s string) opv {
+	return opv{fmt.Sprintf("pa(%s.split(r)); li();", jsStr([]rune(s))), fmt.Sprintf("(OSplit %s None)", Cstr(s))}
+}
+func opReplS(s, rp string) opv {
+	return opv{fmt.Sprintf("out.push(%s.replace(r,%s)); li();", jsStr([]rune(s)), jsStr([]rune(rp))), fmt.Sprintf("(OReplS %s %s)", Cstr(s), Cstr(rp))}
+}
+
+func (g *gen) pinned() {
+	a, b, c := lit('a'), lit('b'), lit('c')
+	// 1 captures not reset: /(z)((a+)?(b+)?(c))*/.exec("zaacbbbcac")
+	g.runSeq(seqCase{r: seqOf(grp(lit('z')), qn(grp(seqOf(qn(grp(qn(a, "plus", true)), "opt", true), qn(grp(qn(b, "plus", true)), "opt", true), grp(c))), "star", true)),
+		ops: []opv{opExec("zaacbbbcac")}}, "pinned")
+	// 2 empty iteration: /(a*)*/.exec("b")
+	g.runSeq(seqCase{r: qn(grp(qn(a, "star", true)), "star", true), ops: []opv{opExec("b")}}, "pinned")
+	// 3 engine tables: /\s/.test("\v"), /./.exec("\r")
+	g.runSeq(seqCase{r: &node{op: "esc", k: 's'}, ops: []opv{opExec("\v")}}, "pinned")
+	g.runSeq(seqCase{r: &node{op: "dot"}, ops: []opv{opExec("\r")}}, "pinned")
+	// 4 lastIndex cut: r=/^a/g; r.lastIndex=1; r.test("aa")
+	g.runSeq(seqCase{r: seqOf(&node{op: "bol"}, a), g: true, literal: true, ops: []opv{opSetLI(1), opTest("aa")}}, "pinned")
+	// 5 byte offsets: /a/g.exec("éa"); lastIndex, and "éa".search(/a/)
+	g.runSeq(seqCase{r: a, g: true, literal: true, ops: []opv{opExec("éa"), opExec("éa")}}, "pinned")
+	g.runSeq(seqCase{r: a, ops: []opv{opSearch("éa")}}, "pinned")
+	// 6 adjacent empty match: "abc".match(/b*/g), replace
+	g.runSeq(seqCase{r: qn(b, "star", true), g: true, ops: []opv{opReplS("abc", "-")}}, "pinned")
+	// 7 global match protocol: "abc".match(/x/g) is undefined; lastIndex after a global match
+	g.runSeq(seqCase{r: lit('x'), g: true, ops: []opv{opMatchG("abc")}}, "pinned")
+	g.runSeq(seqCase{r: a, g: true, ops: []opv{opMatchG("aba")}}, "pinned")
+	// 8 "".split(/(?:)/)
+	g.runSeq(seqCase{r: &node{op: "ncg", a: &node{op: "empty"}}, ops: []opv{opSplit("")}}, "pinned")
+	// 9 $10 with eleven captures
+	var gs []*node
+	for _, ch := range "abcdefghijk" {
+		gs = append(gs, grp(lit(ch)))
+	}
+	g.runSeq(seqCase{r: seqOf(gs...), ops: []opv{opReplS("abcdefghijkl", "[$10][$11][$01]")}}, "pinned")
+	// constructor outcomes
+	g.bad(1, "(", "")
+	g.bad(3, "a", "x")
+	g.bad(4, "[]", "")
+	g.bad(5, "^*", "")
+	g.bad(5, "(?i)a", "")
+	g.bad(6, "(a)(b)(c)(d)(e)(f)(g)(h)(i)(j)\\10", "")
+}
+
+// ---------- translation and constructor cases ----------
+
+func (g *gen) transformCase(pat string) (string, bool) {
+	var out string
+	var err error
+	func() {
+		defer func() {
+			if r := recover(); r != nil {
+				out, err = "PANIC", fmt.Errorf("%v", r)
+			}
 		}()
+		out, err = parser.TransformRegExp(pat)
+	}()
+	return out, err != nil
+}
+
+var soupTokens = []string{"\\", "\\", "(", "(", ")", ")", "[", "]", "?", "=", "!", ":", "(?=", "(?!", "(?:", "0", "1", "7", "8", "9", "00", "12", "x", "u", "c", "b", "B", "d", "w", "s", "a", "f", "A", "F", "g", "z", "J", "$", "_", "-", "^", "|", "*", "+", "{", "}", ",", ".", "é", "€", "É", "/", "n", "\\x", "\\u", "\\c", "\\b", "\\0", "\\1", "\\8", "\\9", "4", "e9", "00e9", "[\\b]", "\\\\", " ", "ß"}
+
+func (g *gen) soup() string {
+	var b strings.Builder
+	for i := g.r.Intn(9) + 1; i > 0; i-- {
+		b.WriteString(Pick(g.r, soupTokens))
+	}
+	if g.r.Intn(40) == 0 { // the int64 wrap-around of the octal loop
+		b.WriteString("\\" + strings.Repeat("7", 20+g.r.Intn(6)))
+	}
+	return b.String()
+}
+
+func (g *gen) ctorClass(pat, flags string, literal bool) (int64, string) {
+	vm := otto.New()
+	var src string
+	if literal {
+		src = fmt.Sprintf("var r = /%s/%s; 0", pat, flags)
+	} else {
+		src = fmt.Sprintf("var r = new RegExp(%s, %s); 0", JSStr(Units(pat)), JSStr(Units(flags)))
+	}
+	o := RunJS(vm, src)
+	return ErrClass(o), src
+}
+
+func (g *gen) bad(kind int, pat, flags string) {
+	cls, src := g.ctorClass(pat, flags, false)
+	g.env.Add(fmt.Sprintf("CBad %d %s %s %d", kind, Cstr(pat), Cstr(flags), cls), fmt.Sprintf("ctor kind=%d %s -> error class %d", kind, src, cls), fmt.Sprintf("bad%d", kind), true)
+}
+
+func (g *gen) simpleLits() string {
+	s := ""
+	for i := g.r.Intn(3); i > 0; i-- {
+		s += string(Pick(g.r, []rune{'a', 'b', 'c', '1'}))
+	}
+	return s
+}
+
+func (g *gen) badCase() {
+	p1 := g.pattern(false).js()
+	p2 := g.pattern(false).js()
+	switch g.weighted([]int{30, 30, 15, 8, 12, 4}) {
+	case 0: // caught by otto's scanner
+		switch g.r.Intn(5) {
+		case 0:
+			g.bad(1, p1+")"+p2, "")
+		case 1:
+			g.bad(1, p1+"("+p2, "")
+		case 2:
+			g.bad(1, p1+"(?:"+p2, "")
+		case 3:
+			g.bad(1, p1+Pick(g.r, []string{"[", "[a", "[^", "[a-", "[\\]"})+g.simpleLits(), "")
+		default:
+			g.bad(1, p1+"("+p2+"))", "")
+		}
+	case 1: // left to the engine
+		g.bad(2, Pick(g.r, []string{"*" + p1, "+" + p1, "?" + p1, p1 + "|*", p1 + "|+a", "(*" + p1 + ")", "(?:+" + p1 + ")", p1 + "a**", p1 + "a+*", p1 + "a{1}{2}", p1 + "a*{2}",
+			p1 + "a{2,1}", p1 + "b{3,0}", p1 + "[b-a]", p1 + "[z-\\x61]", p1 + "[1-\\d]", p1 + "a\\", "{1}" + p1, p1 + "|{2,}", "(" + p1 + "|?)"}), "")
+	case 2: // flags
+		g.bad(3, p1, Pick(g.r, []string{"x", "gx", "y", "G", "gg", "ii", "mm", "gig", "s", "u", "gimx", "g ", "mim"}))
+	case 3:
+		g.bad(4, Pick(g.r, []string{"[]", "[^]", g.simpleLits() + "[]", "[^]" + g.simpleLits(), "(" + "[]" + ")", "a|[]"}), "")
+	case 5: // \1d with at least that many groups: a back-reference in ES5, an octal escape for otto
+		n := 10 + g.r.Intn(8)
+		pat := ""
+		for i := 0; i < n+g.r.Intn(3); i++ {
+			pat += "(" + string(rune('a'+i%3)) + ")"
+		}
+		g.bad(6, pat+p1+fmt.Sprintf("\\%d", n), "")
+	default:
+		g.bad(5, Pick(g.r, []string{"^*", "$+", "\\b+", "\\B?", "a|^{2}", "(?:$)?$*", "(?i)a", "(?s).", "(?P<n>a)", "(?<n>a)", "(?m)^a", "(?U)a+", "(?i:a)", "(?-i)a"}), "")
+	}
+}
+
+func runC10(env *Env) {
+	env.Import = "Otto.C10.Corr"
+	env.Rule = "pattern trees of the portable subset (literals, escapes \\xHH \\uHHHH \\cX, classes, \\d\\w\\s\\b, groups, alternation, greedy/lazy quantifiers, anchors, g/i/m) printed in ES5 syntax as literal or constructor argument; subjects over {a,b,A,1,-,e-acute,\\n,...} sampled from the tree or random; histories of 1-6 calls (exec, test, lastIndex assignment at unit/byte boundaries, match, search, split with limit, replace with $-text or a logging function) on one RegExp object; token soup and trees with look-ahead/back-references through parser.TransformRegExp; malformed mutations and flags through the constructor. non-trivial = history longer than one call or pattern with a quantifier, group, class, alternation or escape; every translation/constructor case"
+	g := &gen{env: env, r: env.Rng}
+	g.pinned()
+	for env.Count() < env.N {
+		switch g.weighted([]int{62, 14, 12, 12}) {
+		case 0:
+			r := g.pattern(false)
+			bucket := "history"
+			if g.r.Intn(14) == 0 {
+				r, bucket = g.manyGroups(), "manygroups"
+			}
+			c := seqCase{r: r, g: g.r.Intn(100) < 55, i: g.r.Intn(4) == 0, m: g.r.Intn(4) == 0, literal: g.r.Intn(2) == 0}
+			if g.r.Intn(6) == 0 {
+				c.mode = 1 + g.r.Intn(2)
+			}
+			s := g.subject(r, c.i)
+			c.ops = g.ops(r, c.g, s)
+			g.runSeq(c, bucket)
+		case 1:
+			pat := g.soup()
+			out, e := g.transformCase(pat)
+			env.Add(fmt.Sprintf("CTrans %s %s %s", Cstr(pat), Cstr(out), Cbool(e)), fmt.Sprintf("transform %q -> %q err=%v", pat, out, e), "soup", true)
+		case 2:
+			r := g.pattern(g.r.Intn(3) > 0)
+			pat := r.js()
+			out, e := g.transformCase(pat)
+			cls, src := g.ctorClass(pat, "", g.r.Intn(2) == 0)
+			env.Add(fmt.Sprintf("CAst %s %s %s %s %d", r.coq(), Cstr(pat), Cstr(out), Cbool(e), cls), fmt.Sprintf("tree %q -> %q err=%v ; %s -> error class %d", pat, out, e, src, cls), "tree", true)
+		default:
+			g.badCase()
+		}
 	}
 }
